@@ -231,6 +231,36 @@ func siEq(a, b reflect.Value, seen map[[2]uintptr]bool) bool {
 	return reflect.DeepEqual(a.Interface(), b.Interface())
 }
 
+type ZTimes struct {
+	T []time.Time
+	P []*ZInner
+}
+
+// siRoundTripUntyped: as siRoundTrip, with the list type names removed from the name map (lists go out untyped)
+func siRoundTripUntyped(v interface{}) (out interface{}, err error) {
+	defer func() {
+		if r := recover(); r != nil {
+			err = fmt.Errorf("PANIC: %v", r)
+		}
+	}()
+	tm, nm := ExtractTypeNameMap(v)
+	nm2 := map[string]string{}
+	for k, w := range nm {
+		if !strings.HasPrefix(k, "[") && !strings.HasPrefix(w, "[") {
+			nm2[k] = w
+		}
+	}
+	bs, err := ToBytes(v, nm2)
+	if err != nil {
+		return nil, fmt.Errorf("encode: %v", err)
+	}
+	out, err = ToObject(bs, tm)
+	if err != nil {
+		return nil, fmt.Errorf("decode: %v", err)
+	}
+	return out, nil
+}
+
 func siRoundTrip(v interface{}) (out interface{}, err error) {
 	defer func() {
 		if r := recover(); r != nil {
@@ -329,6 +359,28 @@ func siC01(r *siReport) {
 				continue
 			}
 			r.ok(cn)
+		}
+	}
+	// zero timestamps between others in a list field that arrives untyped
+	{
+		t1, t2 := time.Unix(1700000000, 0).UTC(), time.Unix(1700000001, 5e6).UTC()
+		v := &ZTimes{T: []time.Time{{}, t1, {}, t2, {}, {}}, P: []*ZInner{nil, {1, "a"}, nil, {2, "b"}, nil}}
+		for _, untyped := range []bool{false, true} {
+			cn := fmt.Sprintf("times-with-zero/untyped=%v", untyped)
+			var out interface{}
+			var err error
+			if untyped {
+				out, err = siRoundTripUntyped(v)
+			} else {
+				out, err = siRoundTrip(v)
+			}
+			if err != nil {
+				r.fail(cn, err.Error())
+			} else if !siEqual(v, out) {
+				r.fail(cn, fmt.Sprintf("decoded value differs: %+v", out))
+			} else {
+				r.ok(cn)
+			}
 		}
 	}
 	// top-level scalars in canonical wire type
